@@ -121,7 +121,9 @@ theorem kinv_referenceLine (E : Ext) {k : KW RefD} (hk : KInv k) (p h : Nat) (l 
   next t ht =>
   have T := hk.tab h t ht
   split
-  · next dupID hl hnok =>
+  · exact hk
+  split
+  · next dupID hl =>
     split
     · exact hk
     next eo he =>
@@ -136,19 +138,7 @@ theorem kinv_referenceLine (E : Ext) {k : KW RefD} (hk : KInv k) (p h : Nat) (l 
     rw [her] at her'; cases her'
     subst hv
     exact kinv_replace (kinv_alloc hk _ rfl) _ ht hi (alloc_heap k _) (alloc_old k _ her) rfl hn.symm
-  · next hno =>
-    split
-    · exact hk
-    next hc =>
-    refine kinv_install hk ht _ _ ?_
-    cases hl : lookup t.seen acc.val.name with
-    | none => rfl
-    | some v =>
-      have : acc.val.nok = true := by
-        cases hb : acc.val.nok with
-        | true => rfl
-        | false => simp [hb] at hc
-      exact absurd this (hno v hl)
+  · next hl => exact kinv_install hk ht _ _ hl
 
 theorem readGroupLine_tabs_len (E : Ext) (k : KW RgD) (h : Nat) (l : Bytes) :
     (readGroupLine E k h l).1.tabs.length = k.tabs.length := by
@@ -188,6 +178,8 @@ theorem referenceLine_tabs_len (E : Ext) (k : KW RefD) (p h : Nat) (l : Bytes) :
   split
   · rfl
   split
+  · rfl
+  split
   · split
     · rfl
     split
@@ -197,9 +189,7 @@ theorem referenceLine_tabs_len (E : Ext) (k : KW RefD) (p h : Nat) (l : Bytes) :
     split
     · rfl
     simp [KW.alloc]
-  · split
-    · rfl
-    · simp [KW.alloc]
+  · simp [KW.alloc]
 
 theorem winv_setHdr {w : World} (hw : WInv w) (h : Nat) (f : HdrF) : WInv (setHdr w h f) := by
   obtain ⟨a, b, c, d, e, g⟩ := hw
